@@ -581,6 +581,7 @@ static void p_more()
     pmc_outcome("%d %s", form, o.total() ? chn[o.channel()] : "-");
 }
 
+#ifndef C03_NO_MAIN
 int main(int argc, char** argv)
 {
     static const char* sites = "execution/algorithms|execution_base/(any_sender|operation_state|receiver|sender)|_Sp_counted_base|intrusive_ptr|atomic_count";
@@ -610,3 +611,4 @@ int main(int argc, char** argv)
     cfg.thorough_budget_s = 900;
     return pmc_main(argc, argv, &cfg, specs, sizeof specs / sizeof specs[0]);
 }
+#endif
